@@ -35,7 +35,7 @@ BUILDER_CONFIGS = [
     (0, 1, 0, 1, 1, "1", "1", "quick"),
     (1, 2, 0, 1, 1, "1", "1", "quick"),
     (1, 1, 1, 1, 1, "0", "0", "quick"),
-    (0, 2, 1, 2, 1, "11", "1", "quick"),
+    (0, 2, 1, 2, 1, "11", "1", "thorough"),
     (1, 2, 1, 2, 2, "12", "12", "quick"),
     (2, 2, 0, 1, 2, "0", "01", "quick"),
     (1, 2, 2, 2, 2, "22", "21", "thorough"),
@@ -55,7 +55,7 @@ def replay_obl(b0, b1, b2, rot, tier="quick"):
                real=VS_REAL, include_real=["version_set.c", "util/vector.c"], kit=VS_KIT + ["vp_buffer_c17.c"],
                defs={"VP_B0": b0, "VP_B1": b1, "VP_B2": b2, "VP_ROT": rot, "VP_RECCAP": reccap,
                      "VP_SLAB": reccap * 3 // 2 + 8, "VP_VEC_CAP": 8},
-               replace_calls=EDIT_REPLACE, restrict_fp=VS_FP,
+               replace_calls=EDIT_REPLACE, restrict_fp=[],
                flags=["--max-field-sensitivity-array-size", str(reccap * 3 // 2 + 9)],
                unwind=28,
                unwindset=dict([(l, nb + 2) for l in (
